@@ -59,14 +59,15 @@ inductive Val
 
 /-! ## On-the-fly tweaks of `flatten_node`: field reordering and renaming -/
 
-/-- Which node types get their `body` moved last. The code as written: `FunctionDef`, `ClassDef`.
-The documented intent ("function or class definition"): also `AsyncFunctionDef`. -/
+/-- Which node types get their `body` moved last: every definition (`FunctionDef`,
+`AsyncFunctionDef`, `ClassDef`). The theorems of C15 hold for every `Cfg`; `implCfg` is the code as
+written (since the `fix:` commit d0d94f6 it is the documented set), `specCfg` the documented set. -/
 structure Cfg where
   defTypes : List Str
   deriving Repr
 
-def implCfg : Cfg := ⟨[cs!"FunctionDef", cs!"ClassDef"]⟩
 def specCfg : Cfg := ⟨[cs!"FunctionDef", cs!"AsyncFunctionDef", cs!"ClassDef"]⟩
+def implCfg : Cfg := specCfg
 
 /-- `sorted(fields, key=lambda c: c[0] == "body")` — a stable sort on a Boolean key. -/
 def bodyLast (fs : List (Str × Val)) : List (Str × Val) :=
@@ -277,7 +278,7 @@ The decision is taken on the *text* of the value (its repr prefix). -/
 def constantKindOfRepr (m3 : Str) : Str × Option Str :=
   if (cs!"'").isPrefixOf m3 || (cs!"\"").isPrefixOf m3 then (cs!"Str", some cs!"s")
   else if m3 == cs!"True" || m3 == cs!"False" || m3 == cs!"None" then (cs!"NameConstant", some cs!"value")
-  else if (cs!"b'").isPrefixOf m3 then (cs!"Bytes", some cs!"s")
+  else if (cs!"b'").isPrefixOf m3 || (cs!"b\"").isPrefixOf m3 then (cs!"Bytes", some cs!"s")
   else if m3 == cs!"Ellipsis" then (cs!"Ellipsis", none)
   else (cs!"Num", some cs!"n")
 
